@@ -272,7 +272,7 @@ class Writer:
         return ["dot", ["velems", [["const", float(c), "float"] for c in cs]], vecnode], 0.0
 
     # -- whole affine function ---------------------------------------------
-    def affine(self, coefs, const, mention_all=False):
+    def affine(self, coefs, const, mention_all=False, _nested=False):
         """Recipe node denoting sum coefs[n]*n + const."""
         rng = self.rng
         coefs = {k: v for k, v in coefs.items() if v != 0 or mention_all}
@@ -347,6 +347,11 @@ class Writer:
                 # a - (-p)
                 negp = ["neg", p] if p[0] != "raw" else ["raw", -p[1], p[2]]
                 acc = ["bin", "-", acc, negp]
+        if self.risky and not _nested and rng.random() < 0.12:
+            # the whole function written as (k * f) / k with the constant term inside the quotient: (x + y + 4) / 2
+            k = rng.choice([2.0, 4.0, -2.0, 0.5])
+            inner = self.affine({n_: v_ * k for n_, v_ in coefs.items()}, const * k, mention_all=mention_all, _nested=True)
+            return ["bin", "/", inner, ["raw", k, "float"]] if rng.random() < 0.7 else ["bin", "*", inner, ["raw", 1.0 / k, "float"]]
         return acc
 
 
@@ -369,19 +374,42 @@ def deep_affine(W, rng, coefs, const, nterms=405):
         terms.append((nm, kk))
         terms.append((nm, -kk))
     rng.shuffle(terms)
+    # some variables are mentioned ONLY through operands that are not plain products: a negation, a bare variable, a vector node
+    special = set(rng.sample(sorted({nm for nm, _ in terms}), max(1, len({nm for nm, _ in terms}) // 3)))
+    views = [(vn, nms) for vn, nms in W.views() if len(nms) >= 2]
     acc = None
+    extra_terms = []
+    if views and rng.random() < 0.7:
+        # one whole view enters through a vector node (w @ view / view.sum()), compensated exactly by scalar terms elsewhere
+        vn, nms = rng.choice(views)
+        if rng.random() < 0.5:
+            extra_terms.append((["sum", vn], {nm: 1.0 for nm in nms}))
+        else:
+            ws = [float(rng.randint(1, 3)) for _ in nms]
+            extra_terms.append((["matmul", ["arr", ws], vn], dict(zip(nms, ws))))
+        for node_, cf in extra_terms:
+            for nm, w_ in cf.items():
+                if nm in special:
+                    # the compensation uses a negation operand so that the variable never occurs inside a plain product
+                    terms.append((nm, -w_))
+                else:
+                    terms.append((nm, -w_))
     for nm, c in terms:
         v = W.elem[nm]
-        if acc is None:
-            acc = ["bin", "*", ["raw", c, "float"], v]
-            continue
-        r = rng.random()
-        if r < 0.6:
-            acc = ["bin", "+", acc, ["bin", "*", ["raw", c, "float"], v]]
-        elif r < 0.85:
-            acc = ["bin", "-", acc, ["bin", "*", ["raw", -c, "float"], v]]
+        if nm in special:
+            # c * v spelled as a negation operand: -((-c) * v), -v
+            op_node = ["neg", v] if c == -1 else ["neg", ["bin", "*", ["raw", -c, "float"], v]]
         else:
-            acc = ["bin", "+", acc, ["bin", "*", v, ["raw", c, "float"]]]
+            op_node = ["bin", "*", ["raw", c, "float"], v] if rng.random() < 0.8 else ["bin", "*", v, ["raw", c, "float"]]
+        if acc is None:
+            acc = op_node if op_node[0] == "bin" else ["bin", "+", ["bin", "*", ["raw", 0.0, "float"], W.elem[terms[0][0]]], op_node]
+            continue
+        if nm in special or rng.random() < 0.7:
+            acc = ["bin", "+", acc, op_node]
+        else:
+            acc = ["bin", "-", acc, ["bin", "*", ["raw", -c, "float"], v]]
+    for node_, _cf in extra_terms:
+        acc = ["bin", "+", acc, node_]
     if const != 0 or rng.random() < 0.3:
         acc = ["bin", "+", acc, ["raw", float(const), "float"]]
     return acc
